@@ -138,11 +138,12 @@ Definition check_run (out : res unit * st) (obs_class : N) (obs_log : list req) 
   (res_class (fst out) =? obs_class) && list_eqb req_eqb (st_log (snd out)) obs_log &&
   pairs_set_eqb (st_b (snd out)) obs_bucket.
 
-(** [obs_log]: the mutating requests of the commit and the GETs sent after its first mutating
-    request (the reads of s3.rs:591-602), in order *)
-Definition check_version_run (fa : option N) (cp : bytes) (i : nv_input) (bk : bucket)
+(** [fa]: the failed mutating request, [fr]: the failed read (one of them at most).
+    [obs_log]: the GETs the commit sends after the emptiness listing of the version prefix
+    (the reads of s3.rs:589-599) and its mutating requests, in order *)
+Definition check_version_run (fa fr : option N) (cp : bytes) (i : nv_input) (bk : bucket)
            (obs_class : N) (obs_log : list req) (obs_bucket : bucket) : bool :=
-  check_run (write_new_version fa cp i (init_st bk)) obs_class obs_log obs_bucket.
+  check_run (write_new_version fa fr cp i (init_st bk)) obs_class obs_log obs_bucket.
 Definition check_object_run (fa : option N) (cp root : bytes) (files : list ufile) (bk : bucket)
            (obs_class : N) (obs_log : list req) (obs_bucket : bucket) : bool :=
   check_run (write_new_object fa cp root files (init_st bk)) obs_class obs_log obs_bucket.
